@@ -146,7 +146,10 @@ class Ctx:
                               "abstractions": list(run.abstractions)})
         else:
             from .solve import cvc5_check
-            res = cvc5_check(run.pc + [z3.Not(t)])
+            t1 = time.time()
+            res = cvc5_check(run.pc + [z3.Not(t)], timeout_s=20 if E.UNKNOWN_SPENT_S <= E.UNKNOWN_BUDGET_S else 5)
+            if res != "unsat":
+                E.UNKNOWN_SPENT_S += time.time() - t1
             if res == "unsat":
                 ob.discharged += 1
                 ob.backends["cvc5"] = ob.backends.get("cvc5", 0) + 1
